@@ -4,7 +4,7 @@
 (* (many executions, each  Reset .. End) and states only what the property *)
 (* states.  It is a deterministic automaton over the log: it never blocks  *)
 (* on a rule, it collects the names of the violated rules per execution    *)
-(* and prints <<"verdict", x, rules>> at the execution's End event (a      *)
+(* and prints "verdict {x, rules}" (JSON) at the execution's End event (a  *)
 (* rejected execution = one with a verdict line).  This form is used       *)
 (* because one defect typically rejects hundreds of executions (one per    *)
 (* range length) and all of them must be identified in one TLC run.        *)
